@@ -38,6 +38,7 @@ type GenOpts struct {
 	Actions        []string // nil = all
 	FixedConfig    bool
 	Overhead       bool // some pods carry spec.overhead (RuntimeClass)
+	DRA            bool // some worlds have DRA devices and resource claims
 }
 
 func pick[T any](t *rapid.T, label string, xs ...T) T {
@@ -593,6 +594,10 @@ func GenScript(t *rapid.T, prop, profile string, o GenOpts) *Script {
 	}
 	s.Ops = genOps(t, o, &s.World)
 	s.Faults, s.BindFail = genFaults(t, o, &s.World)
+	if o.DRA && chance(t, "draworld", 35) {
+		decorateDRA(t, s)
+		s.Profile += "+dra"
+	}
 	return s
 }
 
@@ -661,6 +666,7 @@ func GenStmtFuzzScript(t *rapid.T, thorough bool) *Script {
 	o := mixedOpts(thorough)
 	o.Faults, o.BindFailures, o.MIG = false, false, false
 	o.MaxCycles = 3
+	o.DRA = true
 	s := GenScript(t, "C13", "stmt-fuzz", o)
 	pos := rapid.IntRange(0, len(s.Config.Actions)).Draw(t, "fuzzpos")
 	var as []string
